@@ -224,7 +224,10 @@ func c12StatusGens() []c12StatusGen {
 			for i := r.Intn(3); i > 0; i-- {
 				m := h.Pick(r, c12PromMatches)
 				v.Add("match[]", m)
-				_, err := promparser.ParseExpr(m)
+				// the service turns each match[] into matchers with the Prometheus parser's ParseMetricSelector (since the fix that
+				// gave series / label values the PromQL matcher semantics): an expression that is not a selector — rate(up[1m]) —
+				// is refused by the service step (500), like a text that does not parse at all
+				_, err := promparser.ParseMetricSelector(m)
 				bad = bad || err != nil
 			}
 			c12StatusReq(r, c, "/api/v1/label/a/values", v, false)
@@ -245,7 +248,10 @@ func c12StatusGens() []c12StatusGen {
 			for i := n; i > 0; i-- {
 				m := h.Pick(r, c12Matches)
 				v.Add("match[]", m)
-				bad = bad || !c12SeriesOk(m)
+				// PromSeries parses each match[] with the Prometheus parser's ParseMetricSelector (PromQL matcher semantics
+				// since the C17 fix): `{}` and a bare metric name are selectors, a LogQL pipeline is not
+				_, merr := promparser.ParseMetricSelector(m)
+				bad = bad || merr != nil
 			}
 			post, ferr := c12StatusReq(r, c, "/api/v1/series", v, true)
 			var fails bool
@@ -329,10 +335,9 @@ func c12StatusGens() []c12StatusGen {
 				_, err := traceql_parser.Parse(q)
 				qbad = err != nil
 			}
+			// (until the merged TraceQL fixes the empty selector `{}` made the v2 tags planner dereference a nil attribute selector
+			// — recovered by tamePanic, 500; it is now planned like any other selector)
 			v2out := c12Out(fails || qbad)
-			if q == "{}" {
-				v2out = "f" // the empty selector makes the v2 planner dereference a nil attribute selector (AttrConditionPlanner.getCond): recovered by tamePanic → 500
-			}
 			return c, fmt.Sprintf("c12ctl tempoTagsV2 o %s %s %s %s o", c12PInt(s), c12PInt(e), c12Out(fails), v2out)
 		}},
 		{"tempo/values", func(r *h.Rng) (*c12Case, string) {
